@@ -1,7 +1,7 @@
 ---------------------------- MODULE MC_CssSyntax ----------------------------
 (* Bounded exhaustive exploration of the style-sheet parser model (CssSyntax.tla): every sequence of at most
    MaxLen atoms over Atoms is a sheet.  An atom is one token, or a whole good rule set (G1, G2: six
-   tokens), so that sheets of a few atoms hold good rules with junk statements before, between and after.
+   tokens; G3: G1's selector with an `!important` colour, so that parsing feeds the cascade), so that sheets of a few atoms hold good rules with junk statements before, between and after.
 
      Inv_Syntax   on every well-formed sheet the transcription of parse_stylesheet keeps exactly the rule
                   sets that the reference keeps (C17 on the model: junk statements do not change a sheet)
@@ -16,6 +16,8 @@ CONSTANTS MaxLen, Atoms, Emit, EmitOneIn
 AtomToks(a) ==
   CASE a = "G1" -> << Tok("ident", "b"), Tok("lbrace", "{"), Tok("ident", "color"), Tok("colon", ":"), Hash("010101", <<1, 1, 1>>), Tok("rbrace", "}") >>
     [] a = "G2" -> << Class("x"), Tok("lbrace", "{"), Tok("ident", "color"), Tok("colon", ":"), Hash("020202", <<2, 2, 2>>), Tok("rbrace", "}") >>
+    [] a = "G3" -> << Tok("ident", "b"), Tok("lbrace", "{"), Tok("ident", "color"), Tok("colon", ":"), Hash("030303", <<3, 3, 3>>), Tok("bang", "!"), Tok("ident", "important"), Tok("rbrace", "}") >>
+    [] a = "!i" -> << Tok("bang", "!"), Tok("ident", "important") >>
     [] a = "p" -> << Tok("ident", "p") >>
     [] a = "p:" -> << Tok("ident", "p"), Tok("colon", ":") >>
     [] a = "*" -> << Tok("star", "*") >>
